@@ -100,6 +100,22 @@ CLAIMED = {
              "missed. Error nodes in residuals mean 'evaluation fails'. Forbid policies with ignored parts are unconstrained.",
         technique="TLA+ soundness predicate evaluated by TLC over all completions on residuals produced by the real partial "
                   "evaluator (TLC-generated inputs, recorded outputs, TLC validation)"),
+    "C07": dict(
+        category="model_checking",
+        text="spec/Syntax.tla is the documented Cedar grammar as a recursive-descent parser over token sequences and a renderer "
+             "that derives minimal parenthesisation from the grammar's own levels. TLC checks Parse(Render(a)) = a for every AST "
+             "of the universe (41 expression forms in every parent/child/operand-position pairing, every literal kind, scope "
+             "forms, annotations, condition lists, string and pattern literals incl. escapes) in minimal and full "
+             "parenthesisation, and that the named families outside the grammar are rejected. Both renderings of every AST and "
+             "every single-token deletion / duplication / replacement / swap of the representative policies (32k sequences) are "
+             "emitted with the specification parser's verdict; the harness lays them out with random whitespace and comments "
+             "and compares PolicyList.UnmarshalCedar / Policy.UnmarshalCedar: same acceptance, same AST node by node.",
+        design_ref="DESIGN.md 4 C07",
+        note=TRUSTED + "The grammar is a transcription of the documented one (trailing commas accepted as in the reference "
+             "grammar, no limit on stacked unary operators, extension-function arity not checked at parse time). Layouts are "
+             "generated by the harness.",
+        technique="TLA+ grammar (parser + renderer) round-trip model-checked; TLC-generated token sequences with the "
+                  "specified verdict replayed into the Go parser"),
     "C20": dict(
         category="model_checking",
         text="spec/PolicyStore.tla is the container as a state machine (two PolicySet handles, a PolicyMap copy; New, Load, Add, "
